@@ -644,9 +644,21 @@ Fixpoint validate_steps (t : tree) (keys : list string) : option exn :=
 
 (* what the property demands of a sweep key (specification, independent of the code's string slicing):
    it must be declared, and if it is an argument (or the enabled flag) of a pipeline model, that model must be enabled *)
+(* a declared model argument, whatever its current value (a dict-valued argument is a legitimate sweep target) *)
+Fixpoint targets_argument_at (t : tree) (body : list string) (att : string) : bool :=
+  match body with
+  | [] => match t with
+          | Node NArgs ms => match find is_item att ms with Some _ => true | None => false end
+          | _ => false
+          end
+  | p :: body' => match step t p with SFound _ c => targets_argument_at c body' att | _ => false end
+  end.
+Definition targets_argument (t : tree) (k : list string) : bool :=
+  match split_last k with None => false | Some (b, a) => targets_argument_at t b a end.
+
 Definition spec_step_ok (t : tree) (key : string) : bool :=
   let k := split_dots key in
-  if targets_setting t k then
+  if (if targets_setting t k then true else targets_argument t k) then
       match k with
       | "pipeline" :: g :: m :: _ :: _ =>
           match getv t ["pipeline"; g; m; "enabled"] with Ok v => truthy v | _ => false end
